@@ -780,6 +780,11 @@ def rule_D7(repo: Repo) -> RuleResult:
     seen = {}
     for target, label in [(red, "sum_squares"), (s, "sum"), (c, "count")]:
         recs = calls_to(ev, target)
+        if len(recs) == 0:
+            res.bad(var, var.node, f"var -> {label}",
+                    f"GroupBy.var no longer computes the {label} primitive through {target.qualname}: the variance is "
+                    f"defined as (sum_squares - sum^2/count)/(count - ddof) over one set of rows")
+            continue
         if len(recs) != 1:
             raise AnalysisError(f"D7: GroupBy.var calls {target.qualname} {len(recs)} times (expected 1)")
         b = bind_call(ev, recs[0], target)
